@@ -436,7 +436,11 @@ def check(ctx: Ctx, col: Collector, tier: str) -> None:
                     ok = False
                     detail = f"string default -> {v!r}"
         else:
+            # a default that is no literal is not reproduced: 'no default' (today) and UnknownValue (what C20.DEFAULT-SOURCE asks for) both keep literal defaults exact
+            unreproduced = name not in ("NameExpr:None", "NameExpr:True", "NameExpr:False", "IntExpr", "FloatExpr")
             for v in vals:
+                if unreproduced and isinstance(v, ListV) and len(v.items) == 2 and isinstance(v.items[0], Obj) and v.items[0].cls == "UnknownValue" and v.items[1] == Const(False):
+                    continue
                 if not (isinstance(v, ListV) and len(v.items) == 2 and v.items[0] == want[0] and v.items[1] == Const(want[1])):
                     ok = False
                     detail = f"-> {v!r}, reference {want}"
